@@ -398,7 +398,7 @@ func digest(b []byte) uint32 {
 	return h
 }
 func bobs(b []byte) string {
-	if len(b) <= 1500 {
+	if len(b) <= 300 {
 		return "(BLit " + vh.Bytes(b) + ")"
 	}
 	return fmt.Sprintf("(BDig %d %d)", len(b), digest(b))
@@ -675,15 +675,19 @@ func doDamaged(k int, snd, r0 *msess) {
 	if len(w.b) > 120 {
 		step = 1 + len(w.b)/60
 	}
-	if !thoroughTier && len(w.b) > 30 {
-		step = 1 + len(w.b)/24
+	if !thoroughTier && len(w.b) > 14 {
+		step = 1 + len(w.b)/12
 	}
 	for n := 0; n < len(w.b); n += step {
 		cut(n)
 	}
 	// change single bytes to small values (count bytes, ID[0], work hours): never a length class byte
 	// towards a larger class, so that no huge allocation is requested from the stream reader
-	for t := 0; t < 12 && len(w.b) > 0; t++ {
+	nb := 12
+	if !thoroughTier {
+		nb = 5
+	}
+	for t := 0; t < nb && len(w.b) > 0; t++ {
 		i := rng.Intn(len(w.b))
 		in := append([]byte{}, w.b...)
 		if in[i] > 8 || in[i] == 0 {
@@ -1042,7 +1046,7 @@ func main() {
 			"readDeviceInfo from a Packet and through whole/1-byte/2-byte/random/key-boundary split readers with and without trailing bytes; truncations and byte changes of valid messages (model only); "+
 			"server setters and task builders -> real client MvTime handler -> real handleInfoResult. distinct = distinct Coq case term; non-trivial = the sender's settings differ from the receiver's previous ones "+
 			"(a field that is not carried would be seen)")
-	out.ShardSize = 60
+	out.ShardSize = 110
 	rng = vh.NewRand(fl.Seed)
 	thorough := fl.Tier == "thorough"
 	thoroughTier = thorough
@@ -1075,7 +1079,10 @@ func main() {
 			if thorough {
 				return allKinds
 			}
-			return []int{kSync, allKinds[i%6]}
+			if i%3 == 0 {
+				return []int{kSync, allKinds[(i/3)%6]}
+			}
+			return []int{kSync}
 		}
 		i := 0
 		for j := 0; j < 256; j++ {
@@ -1138,7 +1145,7 @@ func main() {
 		}
 		for fi := 0; fi < 7; fi++ {
 			for _, n := range lens {
-				if !thorough && n >= 65535 && fi != 0 && fi != 4 && fi != 6 {
+				if !thorough && n >= 65535 && fi != 0 && fi != 6 {
 					continue
 				}
 				s := randSess(true)
@@ -1194,7 +1201,9 @@ func main() {
 			}
 			for _, k := range allKinds {
 				doKind(k, s, randSess(false), nil, "writer-"+role+"-proxy-"+px, true)
-				doKind(k, s, zeroSess(false), []byte{1, 1, 65, 1, 1, 66, 0}, "writer-"+role+"-proxy-"+px+"-trailing", true)
+				if thorough || px == "active" {
+					doKind(k, s, zeroSess(false), []byte{1, 1, 65, 1, 1, 66, 0}, "writer-"+role+"-proxy-"+px+"-trailing", true)
+				}
 			}
 		}
 	}
@@ -1249,7 +1258,10 @@ func main() {
 		js := []int64{-1, 0, 1, 50, 99, 100, 101, 127, 128, 200, 255, 256, 355, 1000, -2, -128, -129, -1000, math.MaxInt32, math.MinInt32}
 		ts := []int64{0, -1, 1, 1000000, 1 << 62, math.MaxInt64, math.MinInt64, 30000000000}
 		for _, j := range js {
-			for _, t := range ts {
+			for ti, t := range ts {
+				if !thorough && (ti+int(j&0xFFFF))%2 != 0 && !(t == 1000000 && j >= 100) {
+					continue
+				}
 				srv, cli := mk(true)
 				doOrder(srv, cli, order{kind: "SetDuration", t: t, j: j}, "grid")
 				if thorough || (j+t)%3 == 0 || (t == 1000000 && j >= 100) {
